@@ -18,7 +18,7 @@ from harness.gen import c19_sandbox as S
 from harness.impl import fordrun as F
 from harness.impl import fstrace
 
-IMPORTS = "From Ford Require Import Base.Str Out.FsModel Corr.C19."
+IMPORTS = "From Coq Require Import NArith.\nFrom Ford Require Import Base.Str Out.FsModel Corr.C19."
 THEOREMS = ["C19_targets_confined", "C19_refuted", "C19_refuted_copy_subdir", "C19_refuted_page_location",
             "C19_prefix_safe", "C19_confined_is_safe", "C19_prefix_safe_refuted", "C19_prefix_safe_eq",
             "C19_op_local", "C19_refusal", "C19_refusal_exact", "C19_no_source_deleted",
@@ -201,6 +201,7 @@ class Sandbox:
     def __init__(self, rng, sc):
         self.tmp = tempfile.mkdtemp(prefix="verif_c19_")
         self.sb = os.path.join(os.path.realpath(self.tmp), "a", "b", "sb")
+        self.template = sc
         self.sc = instantiate(sc, self.sb)
         self.files = None
         self.rng = rng
@@ -487,14 +488,16 @@ def low_calls(t):
     return out
 
 
-def fault_runs(chk, cases, ids, rng, sbx, settings, docs, sp, nfaults):
+def fault_runs(chk, cases, ids, rng, sbx, settings, docs, sp, nfaults, only=None):
     """an OSError, and a crash, injected at successive mutating file-system calls of the write-out"""
     sbx.build()
     base_pre = snapshot(sbx.sb)
     base = cases.share(f"pre{len(cases.defs)}", base_pre, ids)
     t0, err0 = rerun_writeout(sbx, settings, docs, None, None)
     total = t0.nlow
-    if nfaults >= total:
+    if only is not None:
+        points = [k for k in only if k < total]
+    elif nfaults >= total:
         points = list(range(total))
     else:   # the first mutating call of operations spread over the run, plus random interior calls
         firsts, seen = [], set()
@@ -518,7 +521,8 @@ def fault_runs(chk, cases, ids, rng, sbx, settings, docs, sp, nfaults):
             ops = canon_ops(sbx.canon, t.ops)
             cases.add(mode, sbx, ids, pre, post, sp, False, ops, docs, base=base,
                       info={"scenario": sbx.sc["name"], "fault_at_call": k, "fault": type(exc).__name__,
-                            "error": err, "ops": show_ops(ops), "opts": sbx.sc["opts"]})
+                            "error": err, "ops": show_ops(ops), "opts": sbx.sc["opts"],
+                            "scenario_def": sbx.template})
             chk.count(("fault", sbx.sc["name"], k, mode), nontrivial=True)
             chk.extra["faults_injected"] = chk.extra.get("faults_injected", 0) + 1
 
@@ -654,19 +658,24 @@ def run(chk):
         sc = json.load(open(f))
         run_sc(sc, label="corpus")
 
-    # (1) corpus + every placement once, random options
-    rounds = 1 if quick else 6
-    fault_budget = 14 if quick else 10 ** 6
-    done_fault = 0
+    # (1) every placement (random options); fault enumeration on some of the runs that completed
+    rounds = 1 if quick else 5
     fault_names = ["sibling-stale", "symlink-to-dir", "nested-missing-ancestors", "absolute",
-                   "dotdot-outside-project", "below-src", "existing-file"]
+                   "dotdot-outside-project", "below-src", "existing-file", "below-symlink"]
+    done_fault = 0
     for r in range(rounds):
-        chosen = rng.sample(fault_names, 2)
+        chosen = rng.sample(fault_names, 2 if quick else 3)
         for sc in scenarios():
-            want_fault = (not sc["refuse"]) and done_fault < (2 if quick else 12) and sc["name"] in chosen
-            res = run_sc(sc, faults=fault_budget if want_fault else 0)
-            if want_fault and res and res.get("faulted"):
+            want = (not sc["refuse"]) and sc["name"] in chosen
+            # quick: 36 of the ~150 mutating calls; thorough: every call for the first four, then 60
+            budget = (50 if quick else (10 ** 6 if done_fault < 4 else 60)) if want else 0
+            res = run_sc(sc, faults=budget)
+            if want and res and res.get("faulted"):
                 done_fault += 1
+    # more (placement x options) combinations without faults
+    free = [pl for pl in S.placements("@SB@") if not pl[6]]
+    for _ in range(8 if quick else 60):
+        run_sc(S.gen_scenario(rng, "@SB@", rng.choice(free)))
     lap("placements+faults")
     # (2) command-line override of output_dir
     for o in (["./cli_out", "../cli_outside"] if quick else ["./cli_out", "../cli_outside", "./src", "."]):
@@ -708,7 +717,7 @@ def run(chk):
     chk.extra["codes"] = {str(c): sum(1 for v in res.values() if v == c) for c in sorted(set(res.values()))}
 
 
-def traced_scenario_in(chk, cases, ids, rng, sbx, faults=0, label=None):
+def traced_scenario_in(chk, cases, ids, rng, sbx, faults=0, label=None, only=None):
     sc = sbx.sc
     try:
         ids.new_sandbox()
@@ -727,7 +736,8 @@ def traced_scenario_in(chk, cases, ids, rng, sbx, faults=0, label=None):
         mode = 0 if (err is None or refused) else 2
         info = {"scenario": sc["name"], "opts": sc["opts"], "links": sc["links"], "error": err,
                 "mode": mode, "ops": show_ops(ops), "topmeta": sc["topmeta"], "submeta": sc["submeta"],
-                "cli": sc.get("cli"), "low_level_events": t.nlow, "log": log[-800:] if err else ""}
+                "cli": sc.get("cli"), "low_level_events": t.nlow, "log": log[-800:] if err else "",
+                "scenario_def": sbx.template}
         cases.add(mode, sbx, ids, pre, post, sp, refused, ops, None if refused else docs, info=info)
         chk.count(("run", sc["name"], tuple(sorted((k, str(v)) for k, v in sc["opts"].items())), sc["topmeta"],
                    sc["submeta"]), nontrivial=True,
@@ -743,7 +753,7 @@ def traced_scenario_in(chk, cases, ids, rng, sbx, faults=0, label=None):
             chk.extra.setdefault("runs_failed_otherwise", []).append({"scenario": sc["name"], "error": err[:300]})
         faulted = False
         if faults and docs is not None and err is None:
-            fault_runs(chk, cases, ids, rng, sbx, settings, docs, sp, faults)
+            fault_runs(chk, cases, ids, rng, sbx, settings, docs, sp, faults, only=only)
             faulted = True
         return {"err": err, "faulted": faulted}
     finally:
@@ -794,12 +804,36 @@ def subprocess_boxes(chk, cases, ids, boxes):
 
 
 def replay(chk, rep):
-    print("scenario:", rep.get("scenario"), "opts:", rep.get("opts"))
-    print("error:", rep.get("error"))
-    for line in rep.get("ops", []):
-        print("  impl", line)
-    print(rep.get("model", ""))
-    return 1
+    """re-run the recorded scenario (and the recorded fault position) on the working tree"""
+    print("scenario:", rep.get("scenario"), "| kind:", rep.get("kind"), "| recorded code:", rep.get("code"))
+    sc = rep.get("scenario_def")
+    if not sc:
+        print(json.dumps({k: v for k, v in rep.items() if k != "model"}, indent=1)[:4000])
+        return 1
+    chk.build(["theories/Corr/C19.vo"])
+    ids, cases = Ids(), Cases()
+    WORDS.names.clear()
+    pkgfs = pkg_listing(ids)
+    ids.freeze()
+    k = rep.get("fault_at_call")
+    traced_scenario_in(chk, cases, ids, chk.rng, Sandbox(chk.rng, sc), faults=0 if k is None else 1,
+                       only=None if k is None else [k])
+    res, common = judge_all(chk, cases, ids, pkgfs)
+    if res is None:
+        print("model evaluation failed")
+        return 1
+    bad = 0
+    for idx, info in enumerate(cases.info):
+        code = res.get(idx, 0)
+        print(f"case {idx}: mode={info.get('mode', 'fault')} fault_at={info.get('fault_at_call')} "
+              f"error={info.get('error')} judge code={code}")
+        if code & 3:
+            bad = 1
+            for line in info.get("ops", []):
+                print("   impl", line)
+            print(explain(chk, cases, idx, common)[-6000:])
+    shutil.rmtree(chk.tmp, ignore_errors=True)
+    return bad
 
 
 def finish(chk):
